@@ -72,25 +72,69 @@ fn get_query_components(
     ),
     QueryError,
 > {
-    // TODO: return error if any unsupported query parts are present
     let sqlparser::ast::Query {
+        with,
         body,
         order_by,
         limit_clause,
-        ..
+        fetch,
+        locks,
+        for_clause,
+        settings,
+        format_clause,
     } = *query;
+    // A clause that is accepted and then ignored changes the answer silently
+    if with.is_some() {
+        return Err(QueryError::NotImplemented("WITH".to_string()));
+    } else if fetch.is_some() {
+        return Err(QueryError::NotImplemented("FETCH (use LIMIT)".to_string()));
+    } else if !locks.is_empty() || for_clause.is_some() {
+        return Err(QueryError::NotImplemented("FOR clauses".to_string()));
+    } else if settings.is_some() || format_clause.is_some() {
+        return Err(QueryError::NotImplemented("SETTINGS / FORMAT".to_string()));
+    }
     match *body {
         SetExpr::Select(box Select {
+            select_token: _,
             distinct,
+            top,
+            top_before_distinct: _,
             projection,
+            into,
             mut from,
+            lateral_views,
+            prewhere,
             selection,
             group_by,
+            cluster_by,
+            distribute_by,
+            sort_by,
             having,
-            // TODO: ensure other items not set
-            ..
+            named_window,
+            qualify,
+            window_before_qualify: _,
+            value_table_mode,
+            connect_by,
+            flavor: _,
         }) => {
-            if let GroupByExpr::Expressions(exprs, with_mods) = group_by
+            if top.is_some() {
+                Err(QueryError::NotImplemented("TOP (use LIMIT)".to_string()))
+            } else if into.is_some() {
+                Err(QueryError::NotImplemented("SELECT INTO".to_string()))
+            } else if qualify.is_some() || !named_window.is_empty() {
+                Err(QueryError::NotImplemented("QUALIFY / WINDOW".to_string()))
+            } else if !lateral_views.is_empty()
+                || prewhere.is_some()
+                || !cluster_by.is_empty()
+                || !distribute_by.is_empty()
+                || !sort_by.is_empty()
+                || value_table_mode.is_some()
+                || connect_by.is_some()
+            {
+                Err(QueryError::NotImplemented(
+                    "LATERAL VIEW / PREWHERE / CLUSTER BY / DISTRIBUTE BY / SORT BY / AS VALUE / CONNECT BY".to_string(),
+                ))
+            } else if let GroupByExpr::Expressions(exprs, with_mods) = group_by
                 && (!exprs.is_empty() || !with_mods.is_empty())
             {
                 Err(QueryError::NotImplemented("Group By  (Hint: If your SELECT clause contains any aggregation expressions, results will implicitly grouped by all other expresssions.)".to_string()))
@@ -106,19 +150,42 @@ fn get_query_components(
                 Err(QueryError::NotImplemented("JOIN".to_string()))
             } else {
                 let (limit, offset) = match limit_clause {
-                    Some(sqlparser::ast::LimitClause::LimitOffset { limit, offset, .. }) => {
+                    Some(sqlparser::ast::LimitClause::LimitOffset {
+                        limit,
+                        offset,
+                        limit_by,
+                    }) => {
+                        if !limit_by.is_empty() {
+                            return Err(QueryError::NotImplemented("LIMIT ... BY".to_string()));
+                        }
                         (limit, offset)
                     }
-                    _ => (None, None),
+                    Some(sqlparser::ast::LimitClause::OffsetCommaLimit { .. }) => {
+                        return Err(QueryError::NotImplemented(
+                            "LIMIT <offset>, <limit> (use LIMIT <limit> OFFSET <offset>)".to_string(),
+                        ));
+                    }
+                    None => (None, None),
+                };
+                let order_by = match order_by {
+                    Some(sqlparser::ast::OrderBy { kind, interpolate }) => {
+                        if interpolate.is_some() {
+                            return Err(QueryError::NotImplemented("INTERPOLATE".to_string()));
+                        }
+                        match kind {
+                            OrderByKind::Expressions(exprs) => Some(exprs),
+                            OrderByKind::All(_) => {
+                                return Err(QueryError::NotImplemented("ORDER BY ALL".to_string()));
+                            }
+                        }
+                    }
+                    None => None,
                 };
                 Ok((
                     projection,
                     from.pop().map(|t| t.relation),
                     selection,
-                    order_by.and_then(|o| match o.kind {
-                        OrderByKind::Expressions(exprs) => Some(exprs),
-                        _ => None,
-                    }),
+                    order_by,
                     limit,
                     offset,
                 ))
@@ -267,6 +334,26 @@ fn convert_to_native_expr(node: &ASTNode) -> Result<Box<Expr>, QueryError> {
             Expr::ColName(strip_quotes(identifier.value.as_ref()))
         }
         ASTNode::Nested(inner) => *convert_to_native_expr(inner)?,
+        ASTNode::Function(f)
+            if f.filter.is_some()
+                || f.over.is_some()
+                || f.null_treatment.is_some()
+                || !f.within_group.is_empty() =>
+        {
+            return Err(QueryError::NotImplemented(format!(
+                "FILTER / OVER / WITHIN GROUP / IGNORE NULLS in {}",
+                f
+            )));
+        }
+        ASTNode::Function(f)
+            if matches!(&f.args, FunctionArguments::List(list)
+                if list.duplicate_treatment.is_some() || !list.clauses.is_empty()) =>
+        {
+            return Err(QueryError::NotImplemented(format!(
+                "DISTINCT / ALL / ORDER BY / LIMIT inside the argument list of {}",
+                f
+            )));
+        }
         ASTNode::Function(f) => match format!("{}", f.name).to_uppercase().as_ref() {
             "TO_YEAR" => match &f.args {
                 FunctionArguments::List(list) if list.args.len() == 1 => Expr::Func1(
